@@ -211,10 +211,18 @@ func RunBatch(specs []Spec, opts BatchOpts) ([]Outcome, error) {
 		mainSrc.WriteString("\t})\n}\n")
 		must(os.MkdirAll(filepath.Join(dir, "cmd"), 0o755))
 		must(os.WriteFile(filepath.Join(dir, "cmd", "main.go"), []byte(mainSrc.String()), 0o644))
-		cmd := exec.Command("go", "build", "-o", bin, "./cmd")
+		// compile every package of the scratch module (generated sub-packages such as ast/ and
+		// selector/ are not imported by the root package), then link the driver
+		cmd := exec.Command("go", "build", "./...")
 		cmd.Dir = dir
 		cmd.Env = goEnv()
 		out, err := cmd.CombinedOutput()
+		if err == nil {
+			cmd = exec.Command("go", "build", "-o", bin, "./cmd")
+			cmd.Dir = dir
+			cmd.Env = goEnv()
+			out, err = cmd.CombinedOutput()
+		}
 		if err == nil {
 			break
 		}
@@ -241,6 +249,7 @@ func RunBatch(specs []Spec, opts BatchOpts) ([]Outcome, error) {
 		for idx, lines := range failed {
 			outs[idx].BuildErr = trim(strings.Join(lines, "\n"), 1500)
 			alive[idx] = false
+			os.RemoveAll(filepath.Join(dir, specs[idx].Name))
 		}
 	}
 	if opts.Vet {
@@ -259,6 +268,7 @@ func RunBatch(specs []Spec, opts BatchOpts) ([]Outcome, error) {
 				if strings.HasPrefix(line, "#") {
 					continue
 				}
+				line = strings.TrimPrefix(line, "vet: ")
 				if j := strings.Index(line, "/"); j > 0 {
 					if idx, ok := byName[strings.TrimPrefix(line[:j], "./")]; ok {
 						if !strings.Contains(line, "zz_driver.go") {
